@@ -21,7 +21,7 @@ def prop(pid, rules, explanation, extra_assumptions=(), technique="static analys
     REGISTRY[pid] = {"rules": rules, "explanation": explanation, "assumptions": COMMON_ASSUMPTIONS + list(extra_assumptions), "technique": technique}
 
 
-from . import rules_order as RO, rules_tower as RT, rules_plugin as PL, rules_panic as PN, rules_sql as SQ, rules_wire as WT, rules_config as CF, rules_outage as OUT, rules_index as IX, rules_txindex as TH, rules_crypto as CY
+from . import rules_order as RO, rules_tower as RT, rules_plugin as PL, rules_panic as PN, rules_sql as SQ, rules_wire as WT, rules_config as CF, rules_outage as OUT, rules_index as IX, rules_txindex as TH, rules_crypto as CY, rules_errors as ED
 
 STATIC = ("This check decides structural clauses that are necessary conditions of the property, for ALL paths / thread pairs / table rows of the "
           "compiled program (MIR of /repo's working tree); it does not decide the behavioural statement as a whole. ")
@@ -32,19 +32,19 @@ prop("C01", [RO.rule_OR1, RO.rule_OR2_watcher, RO.rule_OR2_responder, RO.rule_CR
      "no early loop exit (OR2w/OR2r); no accepted-but-unwatched window against the block thread (AT1); cache window 6 / index 100 / locator 16 bytes (EF3); "
      "breach provenance (EF1). NOT decided: that the right set of breaches is computed for every history (SQL IN semantics, collisions, node verdict mapping).",
      technique="MIR path-fact dataflow + origin tracing + lock-span analysis")
-prop("C02", [RO.rule_EF1, RO.rule_OR2_responder, RO.rule_CR, RO.rule_OR2_gatekeeper, RO.rule_OR1, SQ.rule_SQ1, RO.rule_TX, LK.rule_AT1],
+prop("C02", [RO.rule_EF1, RO.rule_OR2_responder, RO.rule_CR, RO.rule_OR2_gatekeeper, RO.rule_OR1, SQ.rule_SQ1, RO.rule_TX, LK.rule_AT1, ED.rule_ED],
      STATIC + "Decided: only Carrier::send_transaction reaches sendrawtransaction, and every transaction handed to it is either the Ok payload of "
      "decrypt(blob, txid(dispute)) paired with that dispute, or a field of a stored tracker (EF1); tracker iff accepted, both disconnect handlers purge their index (OR2r); "
      "owner removal precedes Watcher/Responder and cascades in the DB, foreign keys switched on in the production constructor (OR1, OR2g, SQ1); a cache hit is acted on inside the same locator-cache critical section that found it, so the disconnect purge cannot run between look-up and broadcast (AT1). "
      "NOT decided: that exactly the disconnected block's entries are purged (container contents, C19).",
      technique="who-may-call + interprocedural origin tracing + SQL schema tables")
-prop("C03", [RO.rule_OR3, LK.rule_CBS, RO.rule_OR2_watcher, SQ.rule_SQ3, SQ.rule_SQ1, SQ.rule_SQ5_tower, LK.rule_AT2, RO.rule_OR2_gatekeeper],
+prop("C03", [RO.rule_OR3, LK.rule_CBS, RO.rule_OR2_watcher, SQ.rule_SQ3, SQ.rule_SQ1, SQ.rule_SQ5_tower, LK.rule_AT2, RO.rule_OR2_gatekeeper, ED.rule_ED],
      STATIC + "Decided (ordering of durable effects, what crash-safety rests on): last-known-block written by one function only on Ok(Better(tip)) of the poll that delivered the blocks; "
      "bootstrap poll before any API is spawned; tower key regenerated only if --overwritekey or none stored (OR3); slots charged (successfully) before the store (CBS); "
      "multi-statement writes are one committed sqlite transaction (SQ3); cascades on (SQ1); one critical section and one DB delete per balance update (AT2); "
      "memory purge always followed by the DB purge (OR2g); block processing is re-runnable in the sense that, on a replayed block, only undecryptable or node-rejected breaches are dropped (OR2w: any other verdict, e.g. already-in-chain, keeps the appointment and its tracker). NOT decided: enumeration of crash points, replay equivalence, partial-progress semantics of the SPV client.",
      technique="must-precede / must-follow path analysis on MIR + SQL statement tables")
-prop("C04", [RO.rule_OR2_responder, RO.rule_CR, RO.rule_EF2, RO.rule_EF3, SQ.rule_SQ4, RO.rule_TX, RT.rule_SL, TH.rule_TH],
+prop("C04", [RO.rule_OR2_responder, RO.rule_CR, RO.rule_EF2, RO.rule_EF3, SQ.rule_SQ4, RO.rule_TX, RT.rule_SL, TH.rule_TH, LK.rule_AT4],
      STATIC + "Decided: Responder connect/disconnect pipelines complete on all paths; reorg handler gated by coming_from_reorg and re-announces dispute then penalty of the stored tracker; "
      "rejected re-submissions queued for the no-refund delete; completion guard `current_height - h == IRREVOCABLY_RESOLVED` on ConfirmedIn(h); rebroadcast threshold "
      "InMempoolSince(height - 6) (OR2r); refund flag constant and true exactly for check_confirmations' list (EF2); constants 100/6 (EF3); the refund persisted with the deletion is the balance after every addition (SL); the confirmation height taken from the index is the block's chain height in every reachable index state (TH). "
@@ -61,29 +61,29 @@ prop("C06", [RT.rule_AU1, RO.rule_OR2_watcher, RT.rule_SB, WT.rule_WT3],
      "has_subscription_expired is the Ok payload of authenticate_user; the signed message is the request-specific one and its template equals what the client signs; "
      "authenticate_user returns Ok only for a recovered key that is a registered user; appointments of different users under one locator are handled independently per block (OR2w: every (locator, uuid) pair is visited, a failure of one never ends the loop); the expiry the check reads moves only with an accepted, persisted renewal (SB all-or-nothing); the bytes a signature is checked against determine every field of the request (WT3: each field once, integers whole) — otherwise a signature over one appointment authenticates another. NOT decided: cryptographic claims, isolation over multi-user histories.",
      technique="branch-fact dataflow + origin tracing (identity provenance) + literal cross-check")
-prop("C07", [RT.rule_SL, LK.rule_AT2, RO.rule_EF2, RO.rule_EF3, SQ.rule_SQ3, SQ.rule_SQ5_tower, LK.rule_CBS],
+prop("C07", [RT.rule_SL, LK.rule_AT2, RO.rule_EF2, RO.rule_EF3, SQ.rule_SQ3, SQ.rule_SQ5_tower, LK.rule_CBS, SQ.rule_SQ4],
      STATIC + "Decided: the only subtraction of slots is guarded by `required - used <= available` and equals available - (slots(new) - slots(stored for this uuid)); renewal uses checked_add; "
      "refund adds slots(stored blob) and is persisted in the deletion's transaction; one critical section per balance update; only completion refunds; one divisor (2048) at all charge/refund sites; "
-     "the balance reported is the one computed and persisted; a charge is always followed by the store (no refusal after the balance moved) (CBS). NOT decided: the conservation law over histories, the float slot formula per blob length.",
+     "the balance reported is the one computed and persisted; a charge is always followed by the store (no refusal after the balance moved) (CBS); the reads the charge and the refund are computed from range over every stored appointment of the uuid, triggered or not (SQ4 query-scope table). NOT decided: the conservation law over histories, the float slot formula per blob length.",
      technique="comparison/arithmetic shape rules over origin terms + lock spans")
-prop("C08", [RT.rule_RC, WT.rule_WT3, SQ.rule_SQ2, LK.rule_AT2],
+prop("C08", [RT.rule_RC, WT.rule_WT3, SQ.rule_SQ2, LK.rule_AT2, ED.rule_ED],
      STATIC + "Decided: an appointment receipt is returned only on paths that stored the appointment / handed it to the responder, is built from the same ExtendedAppointment (request signature, "
      "height at acceptance) and is signed with the tower key; registration receipts are built from the persisted record; gRPC responses map like-named fields (RC); signed layouts cover every field "
      "once with at most one variable-length component, integers whole through to_be_bytes of their own width (WT3); updates rewrite all mutable columns, inserts/updates bind parameters in column order (SQ2); every read-modify-write of a user record is one critical section, so the record a registration receipt was built from is not overwritten by a concurrent stale copy (AT2). NOT decided: signature validity, byte-for-byte read-back.",
      technique="dominance + field-level origin tracing + SQL/bind-order tables")
-prop("C09", [RT.rule_SB, RO.rule_OR2_gatekeeper, RO.rule_OR1, SQ.rule_SQ1, RT.rule_AU1],
+prop("C09", [RT.rule_SB, RO.rule_OR2_gatekeeper, RO.rule_OR1, SQ.rule_SQ1, RT.rule_AU1, CF.rule_CF],
      STATIC + "Decided: expired = (height >= subscription_expiry) reporting that expiry; outdated = (block_height >= subscription_expiry + expiry_delta); renewal = checked_add(expiry, duration).unwrap_or(MAX) "
-     "on the existing-user arm; new user = (slots, height, height + duration); disconnect stores height - 1; purge pipeline + cascade + listener order; every request handler decides on the flag returned by has_subscription_expired itself (the Gatekeeper's verdict at its own height), not on a comparison re-derived from another height (AU1). NOT decided: behaviour across reorg histories and boundary configurations.",
+     "on the existing-user arm; new user = (slots, height, height + duration); disconnect stores height - 1; purge pipeline + cascade + listener order; every request handler decides on the flag returned by has_subscription_expired itself (the Gatekeeper's verdict at its own height), not on a comparison re-derived from another height (AU1); the duration and grace period the Gatekeeper is built with are the configured ones — Config::verify rewrites nothing but the network name and an unset port, and main hands the configured fields to Gatekeeper::new (CF). NOT decided: behaviour across reorg histories and boundary configurations.",
      technique="comparison-shape rules over closure-resolved origin terms")
-prop("C10", [LK.rule_lock_classes, LK.rule_AT1, LK.rule_AT2, LK.rule_AT3, LK.rule_LK0, LK.rule_LK1],
+prop("C10", [LK.rule_lock_classes, LK.rule_AT1, LK.rule_AT2, LK.rule_AT3, LK.rule_AT4, LK.rule_LK0, LK.rule_LK1],
      STATIC + "Decided, for all paths and all pairs of threads: AT1 (cache look-up and store are one critical section of the locator-cache lock, block thread updates the cache before querying the DB), "
-     "AT2 (each balance read-modify-write is one critical section), AT3 (charge and store atomic against an identical concurrent submission), LK0/LK1 (no two operations can wait on each other). "
+     "AT2 (each balance read-modify-write is one critical section), AT3 (charge and store atomic against an identical concurrent submission), AT4 (a disconnection purges the Responder's index before collecting the trackers confirmed in that block, so a concurrent trigger is either collected or misses the block), LK0/LK1 (no two operations can wait on each other). "
      "NOT decided: equivalence of final states to some sequential order (needs execution).",
      technique="guard-liveness dataflow on MIR (lock sets), lock-order graph with thread-root reachability")
-prop("C11", [LK.rule_lock_classes, LK.rule_LK0, LK.rule_LK1, LK.rule_LK2, PN.rule_PN_tower, IX.rule_IXt],
+prop("C11", [LK.rule_lock_classes, LK.rule_LK0, LK.rule_LK1, LK.rule_LK2, PN.rule_PN_tower, IX.rule_IXt, OUT.rule_OUT],
      STATIC + "Decided: no re-entrant acquisition (LK0), no lock-order cycle between concurrently runnable threads (LK1), condvar wait discipline (LK2), and every unwrap/expect reachable from an API or chain "
      "thread root classified: request-derived ones validated by the HTTP layer, replayed inserts guarded by an existence test in the same critical section, look-ups justified in the same critical section (PNt, "
-     "each labelled with the locks held, i.e. what a panic would poison); index/slice/positional operations and explicit panic!/unreachable! on those paths are discharged by constants, length guards on every path or a closed variant set of the callee (IXt). NOT decided: absence of panics in general (sqlite I/O), liveness after arbitrary histories.",
+     "each labelled with the locks held, i.e. what a panic would poison); index/slice/positional operations and explicit panic!/unreachable! on those paths are discharged by constants, length guards on every path or a closed variant set of the callee (IXt); every successful poll raises the reachability flag and notifies, whoever lowered it (OUT: the only waker of threads parked in the Carrier). NOT decided: absence of panics in general (sqlite I/O), liveness after arbitrary histories.",
      technique="lock-order graph + condvar wake-up reachability + classified-unwrap table with same-section discharge")
 prop("C12", [OUT.rule_OUT, LK.rule_LK2],
      STATIC + "Decided: both Carrier RPC wrappers wait for reachability first; a transport error flags the outage and re-issues the same call, never yields a verdict; the monitor sets the flag true + notify_all "
@@ -115,7 +115,7 @@ prop("C17", [CY.rule_CY, RO.rule_EF3],
      "functions; verify = (recover_pk(msg, sig) == pk) with every error mapped to false (CY); locator = first 16 bytes of the txid (EF3). NOT decided: that the primitives are inverse / reject tampering for all inputs "
      "(values computed by ChaCha20-Poly1305, SHA-256, ECDSA), nor anything about the primitives' own code.",
      technique="sibling-agreement check on interprocedural origin terms (canonicalised operand terms of the two AEAD call sites) + return-term shape")
-prop("C18", [PL.rule_PL7, SQ.rule_SQ1, SQ.rule_SQ3, PL.rule_PL3, SQ.rule_SQ5_client],
+prop("C18", [PL.rule_PL7, SQ.rule_SQ1, SQ.rule_SQ3, PL.rule_PL3, SQ.rule_SQ5_client, ED.rule_ED],
      STATIC + "Decided: every mutator changes memory and disk together and only mutators do; status reconstruction agrees between the two loaders; client schema cascades from towers (and appointments) with foreign keys on; "
      "multi-statement writes are transactions; add-before-delete. NOT decided: the reference-counting rule of delete_pending_appointment over operation sequences; memory == disk after histories.",
      technique="who-may-write/call tables + must-follow analysis + SQL schema tables")
